@@ -77,4 +77,56 @@ theorem startNextRow_outs (b : Bot) (isFirst : Bool) :
       · simp at h
     · exact ⟨h.1, by intro hc; rw [h.2] at hc; cases hc⟩
 
+/-- The only place that can report a failed stroke assertion is the control step itself. -/
+theorem generateNextRow_no_assert (b : Bot) : Out.crash "AssertionError" ∉ (b.generateNextRow).2 := by
+  unfold Bot.generateNextRow
+  split
+  · simp
+  · split
+    · simp
+    · split <;> simp
+
+theorem snrFinish_no_assert (b : Bot) (o4 : List Out) (h : Out.crash "AssertionError" ∉ o4) :
+    Out.crash "AssertionError" ∉ (Bot.snrFinish b o4).2 := by
+  unfold Bot.snrFinish
+  split
+  · exact h
+  · have hg := generateNextRow_no_assert b
+    rcases hq : b.generateNextRow with ⟨b3, o9⟩
+    rw [hq] at hg
+    simp only [] at hg ⊢
+    split
+    · simp only [List.mem_append, not_or]; exact ⟨h, hg⟩
+    · simp only [List.mem_append, not_or]
+      refine ⟨⟨h, hg⟩, ?_⟩
+      intro hm
+      have := expectAll_kind b3 _ hm
+      unfold Bot.expectAll at hm
+      simp only [List.mem_map] at hm
+      obtain ⟨p, _, hp⟩ := hm
+      cases hp
+
+theorem makeCalls_no_crash (b : Bot) (cs : List String) (e : String) : Out.crash e ∉ b.makeCalls cs := by
+  unfold Bot.makeCalls
+  split
+  · simp
+  · simp
+
+/-- If the control step does not fail, `start_next_row` reports no failed assertion. -/
+theorem startNextRow_no_assert (b : Bot) (f : Bool) (c : Ctl) (s : Bool)
+    (h : ctlStep b.ctl (b.ctlIn f) = .ok c s) : Out.crash "AssertionError" ∉ (b.startNextRow f).2 := by
+  unfold Bot.startNextRow
+  rw [h]
+  simp only []
+  apply snrFinish_no_assert
+  split
+  · exact makeCalls_no_crash _ _ _
+  · simp
+
+theorem ringBell_no_crash (b : Bot) (bell : Nat) (e : String) : Out.crash e ∉ b.ringBell bell := by
+  unfold Bot.ringBell
+  split
+  · split <;> simp
+  · simp
+
 end Wheatley
